@@ -74,7 +74,7 @@ __wrap_select(int n, fd_set *r, fd_set *w, fd_set *e, struct timeval *tv) {
   if (vf_real_clock)
     return __real_select(n, r, w, e, tv);
   ms = tv ? (uint64_t)tv->tv_sec * 1000 + (uint64_t)tv->tv_usec / 1000 : 1000;
-  vf_now_ms += ms ? ms : 1;
+  vf_now_ms += ms; /* a poll (time-out 0, e.g. from coap_io_pending()) costs nothing */
   if (r)
     FD_ZERO(r);
   if (w)
